@@ -313,7 +313,7 @@ func RunCell(c *Cell) (res *Result) {
 				stores[cur()] = st
 			}
 			record(op, t0, err, "")
-		case "set", "get", "callback", "revcallback", "big", "print":
+		case "set", "get", "callback", "revcallback", "orphan", "big", "print":
 			i := cur()
 			if v, at, ok := strings.Cut(arg, "@"); ok {
 				arg = v
@@ -337,6 +337,8 @@ func RunCell(c *Cell) (res *Result) {
 				record(op, t0, st.Callback(), "")
 			case "revcallback":
 				record(op, t0, st.RevCallback(), "")
+			case "orphan":
+				record(op, t0, st.Orphan(), "")
 			case "big":
 				n, _ := strconv.Atoi(arg)
 				got, err := st.Big(n)
